@@ -598,3 +598,60 @@ def literal_keys(rng, B):
         a.emit(rng.choice(["STOP", [0xfffd, "JUMP"], [0xfffe, "JUMP"], ["CALLVALUE", "JUMP"], "INVALID",
                            [0, 0, "REVERT"], ["CALLER", "SELFDESTRUCT"], [3, "JUMP"]]))
     return a.assemble(), keys
+
+
+def mask_shift(rng):
+    """Mask-and-shift code over a few slots with shift amounts and mask positions anywhere in 0..2^256."""
+    a = evm.Asm()
+    shifts = [0, 1, 7, 8, 16, 96, 160, 240, 248, 250, 255, 256, 257, 300, 511, 1 << 16, (1 << 64) - 1, 1 << 64,
+              (1 << 64) + 8, 1 << 255, evm.M256]
+    widths = [1, 8, 16, 24, 64, 128, 160, 248, 255, 256]
+    feats = set()
+    nb = rng.randint(1, 5)
+    a.emit(0, "CALLDATALOAD", 0xe0, "SHR")
+    for b in range(nb):
+        a.emit("DUP1", ("push", 0xc0000000 + b, 4), "EQ")
+        a.jumpi("B%d" % b)
+    a.emit("STOP")
+    for b in range(nb):
+        a.label("B%d" % b)
+        for _ in range(rng.randint(1, 3)):
+            s = rng.randrange(0, 4)
+            sp = s if s else ("push", 0, 1)
+            k = rng.choice(shifts)
+            w = rng.choice(widths)
+            m = (1 << w) - 1
+            style = rng.choice(["shr-and", "div-and", "and-shifted-mask", "write-mul", "write-shl", "shl-and", "sar-and",
+                                "nested-or", "and-and"])
+            feats.add(style)
+            if k >= 256:
+                feats.add("shift>=256")
+            if style == "shr-and":
+                a.emit(sp, "SLOAD", k, "SHR", ("push", m, None), "AND", 0, "MSTORE")
+            elif style == "sar-and":
+                a.emit(sp, "SLOAD", k, "SAR", ("push", m, None), "AND", 0, "MSTORE")
+            elif style == "shl-and":
+                a.emit(sp, "SLOAD", k, "SHL", ("push", m, None), "AND", 0, "MSTORE")
+            elif style == "div-and":
+                kk = k if k < 256 else rng.choice([8, 16, 200])
+                a.emit(("push", 1 << kk, None), sp, "SLOAD", "DIV", ("push", m, None), "AND", 0, "MSTORE")
+            elif style == "and-shifted-mask":
+                kk = k % 256
+                a.emit(sp, "SLOAD", ("push", (m << kk) & evm.M256, None), "AND", 0, "MSTORE")
+            elif style == "and-and":
+                a.emit(sp, "SLOAD", ("push", m, None), "AND", ("push", (1 << rng.choice(widths)) - 1, None), "AND", k, "SHR",
+                       0, "MSTORE")
+            elif style == "write-mul":
+                kk = k if k < 256 else rng.choice([8, 16, 200, 255])
+                a.emit(sp, "SLOAD", ("push", evm.M256 ^ ((m << kk) & evm.M256), 32), "AND")
+                a.emit(4, "CALLDATALOAD", ("push", m, None), "AND", ("push", 1 << kk, None), "MUL", "OR", sp, "SSTORE")
+            elif style == "write-shl":
+                a.emit(sp, "SLOAD", ("push", evm.M256 ^ ((m << (k % 256)) & evm.M256), 32), "AND")
+                a.emit(4, "CALLDATALOAD", ("push", m, None), "AND", k, "SHL", "OR", sp, "SSTORE")
+            else:
+                k1, k2 = rng.choice([0, 8, 16, 64]), rng.choice([128, 160, 200, 250, 255])
+                a.emit(4, "CALLDATALOAD", ("push", 0xff, None), "AND", ("push", 1 << k1, None), "MUL")
+                a.emit(36, "CALLDATALOAD", ("push", m, None), "AND", ("push", 1 << k2, None), "MUL", "OR")
+                a.emit(sp, "SLOAD", ("push", (1 << k1) - 1, None), "AND", "OR", sp, "SSTORE")
+        a.emit("STOP")
+    return a.assemble(), feats
